@@ -102,8 +102,8 @@ def explore(ctx, state):
     sm = dict(kv.split("=", 1) for kv in summary[0].split()[1:])
     by_request = {}
     for item in sm["by_request"].split(","):
-        k, n, pn = item.split(":")
-        by_request[k] = {"requests": int(n), "panics": int(pn)}
+        k, n, pn, ms = item.split(":")
+        by_request[k] = {"requests": int(n), "panics": int(pn), "ms": int(ms)}
     panics = []
     for l in lines:
         if l.startswith("panic "):
@@ -150,6 +150,11 @@ def explore(ctx, state):
             "counterfactual": {k: w[k] for k in w if k.startswith("counterfactual")},
             "further": [f"handler {h['hex']} {h['request']} {h['line']} {h['col']}" for h in new[1:10]],
             "count": len(new)})
+    probe = [l for l in lines if l.startswith("probe unopened-uri ")]
+    probe = dict(kv.split("=", 1) for kv in probe[0].split()[2:]) if probe else {}
+    if any(v != "ok" for v in probe.values()):
+        ctx.notes.append("outside the property's quantifier (document not open): requests naming a URI the server has never seen panic in "
+                         + ", ".join(f"{k} ({v})" for k, v in probe.items() if v != "ok") + " — `documents.get(uri).unwrap()` in server.rs")
     rc, stale, _ = common.sh([binary, "stale"])
     stale = stale.strip()
     if stale != "fresh":
@@ -162,13 +167,13 @@ def explore(ctx, state):
         "by_request": by_request,
         "panics_attributed_to_known_findings": {k: len(v) for k, v in hits.items()},
         "unattributed_panics": len(new),
+        "probe_unopened_uri_not_part_of_the_property": probe,
         "rule": "base texts: hand-written boundary documents, examples/**/*.par, crates/parol/src/parser/parol.par "
-                "(thorough: + parol_ls.par, parol-ls/data/input/*.par); per base text 3 (quick) / 24 (thorough) seeded mutants "
+                "(thorough: + parol_ls.par, parol-ls/data/input/*.par); per base text 3 (quick) / 20 (thorough) seeded mutants "
                 "(truncate, delete span, insert token/Unicode/line-end snippet, LF->CRLF, duplicate/swap lines, multi-byte letter, "
                 "comment in place of a blank, comment after the last production); per text: open, symbols, formatting x3 option sets, "
-                "and hover/definition/prepare-rename/rename/code-action (8 diagnostics incl. reversed and empty ranges) at every "
-                "(line, column) incl. 2 columns past each line end and 2 lines past the end (quick: seeded sample of 250/100 positions "
-                "per text) plus 5 far-out positions (u32::MAX)",
+                "and hover/definition/prepare-rename/rename/code-action (4 diagnostics per request: both handled codes x forward/next-line/reversed/empty ranges, alternating with position parity) at every "
+                "(line, column) incl. 2 columns past each line end and 2 lines past the end (quick: seeded sample of 250 positions per base text and 100 per mutant; thorough: all positions of base texts, 60 per mutant) plus 5 far-out positions (u32::MAX)",
         "samples": [l for l in lines if l.startswith("text ")][:3] + [l[:200] for l in lines if l.startswith("panic ")][:2],
         "explored_files": EXPLORED_FILES,
         "explored_source_fingerprint": common.fingerprint(EXPLORED_FILES),
